@@ -3,6 +3,7 @@ CONSTANTS
   Reqs = {1, 2, 3}
   MaxTag = 5
   FixRelease = TRUE
+  FixSent = TRUE
   MaxStray = 1
 INVARIANT NoViolation
 INVARIANT PoolSane
